@@ -342,6 +342,17 @@ theorem insert_append_effect (m : Matcher) (q cr : Bool) (t : Str) (st : St) :
     execCmd m q (.append t) cr st = ({ st with appq := st.appq ++ [t] }, .next) := by
   simp [execCmd]
 
+/-- `r file` queues the content of the file behind what is queued already, exactly as `a` queues its text -/
+theorem readFile_effect (m : Matcher) (q cr : Bool) (f : Str) (c : Option Str) (st : St) :
+    execCmd m q (.readFile f c) cr st = execCmd m q (.append (c.getD [])) cr st := by
+  simp [execCmd]
+
+/-- ... and a file that cannot be opened is silently nothing: the flush writes what it would write without it -/
+theorem readFile_missing (m : Matcher) (q cr skip : Bool) (f : Str) (st : St) :
+    emitOutput q (execCmd m q (.readFile f none) cr st).1 skip = emitOutput q st skip := by
+  have h0 : ∀ o : Str, emit o [] = o := fun o => by simp [emit]
+  simp [execCmd, emitOutput, List.foldl_append, h0]
+
 /-- `c`: the text is written (even under -n) on a complete selection — one address, the end of a range, or a negated
     command — and not in the middle of a range; the pattern space is deleted and the cycle ends without autoprint text -/
 theorem change_effect (m : Matcher) (q cr : Bool) (t : Str) (st : St) :
@@ -456,6 +467,12 @@ example : (exec (fun _ _ _ => none) [{ op := .noop }, { op := .branch 0 }] false
 
 /-- G on a one-line input: "a\n\n" (hold space starts as the empty line) -/
 example : (exec (fun _ _ _ => none) [{ op := .getAppend }] false 100 5 [['a', '\n']]).out = ['a', '\n', '\n'] := by
+  decide
+
+/-- `a` and `r` share one queue, flushed in order after the line: a X / r file(R) / a Y on one line -/
+example : (exec (fun _ _ _ => none)
+    [{ op := .append ['X', '\n'] }, { op := .readFile ['f'] (some ['R', '\n']) }, { op := .readFile ['g'] none },
+     { op := .append ['Y', '\n'] }] false 100 9 [['a', '\n']]).out = ['a', '\n', 'X', '\n', 'R', '\n', 'Y', '\n'] := by
   decide
 
 /-- `$!N` then print: an unterminated last line is written as it came, the autoprint supplies no newline -/
